@@ -396,7 +396,7 @@ def run_check(spec, tier, base_seed):
         choices_drawn=agg.stats.get('choices', 0),
         faults_fired={k: v for k, v in sorted(agg.stats.items())
                       if k.startswith(('dfault.', 'crash', 'torn', 'stall', 'sigterm', 'poke.',
-                                       'kill', 'cfault.', 'line_yield', 'loop_seam', 'io_error', 'slow_rpc'))
+                                       'kill', 'cfault.', 'line_yield', 'loop_seam', 'io_error', 'slow_rpc', 'alloc_fail'))
                       } | {k: v for k, v in sorted(agg.probes.items()) if k.startswith('on_rpc.fired')},
         probes=dict(sorted(agg.probes.items())),
         other_property_signals=dict(agg.other),
